@@ -252,7 +252,7 @@ theorem tinv_conserved {s : Sys} (h : TInv ex accts groups s) : conserved s = tr
   have := h.2.cons p.1 p.2 hp r hr
   simpa [tokens_eq] using this
 
-theorem tinv_receiptsConserved {s : Sys} (h : TInv ex accts groups s) : receiptsConserved s = true := by
+theorem tinv_receiptsConserved {s : Sys} (h : TInv true accts groups s) : receiptsConserved s = true := by
   unfold receiptsConserved
   rw [List.all_eq_true]
   intro p hp
@@ -262,7 +262,7 @@ theorem tinv_receiptsConserved {s : Sys} (h : TInv ex accts groups s) : receipts
   rw [intended_eq, hg] at hr
   have := h.2.rcons p.1 p.2 hp r hr
   rw [receiptTokens_eq, shownCount_eq]
-  simpa using this
+  simpa [rcRel] using this
 
 theorem tinv_answerable (hn : accts.Nodup) {s : Sys} (h : TInv ex accts groups s) : answerable s = true := by
   unfold answerable
@@ -401,7 +401,7 @@ theorem tinv_queueSane (hn : accts.Nodup) {s : Sys} (h : TInv ex accts groups s)
     simpa using this
   simp [hnd, hle]
 
-theorem tinv_tokInv (hn : accts.Nodup) {s : Sys} (h : TInv ex accts groups s) : tokInv s = true := by
+theorem tinv_tokInv (hn : accts.Nodup) {s : Sys} (h : TInv true accts groups s) : tokInv s = true := by
   unfold tokInv
   rw [tinv_conserved h, tinv_receiptsConserved h, tinv_answerable hn h, tinv_noCorrupt h, tinv_noncesBelow hn h, tinv_unopened h,
     tinv_shapes h, tinv_keptForRetry h, tinv_receiptsHonest h, tinv_retriesSane hn h, tinv_queueSane hn h]
